@@ -101,7 +101,12 @@ class Tokenizer:
                     if paren_level[-1] == opener:
                         paren_level.pop()
                     else:
-                        raise SyntaxError(f"Unmatched closing paren {tok.string} at {tok.start}")
+                        raise self._syntax_error(f"Unmatched closing paren {tok.string} at {tok.start}", tok)
+            elif tok.type == Token.ENDMARKER:
+                # unterminated macro call: hand the end of input back to the parser
+                self._stack.append(tok)
+                self._call_macro = False
+                break
             else:
                 if tok.is_exact_type(")"):
                     self._stack.append(tok)
@@ -122,8 +127,8 @@ class Tokenizer:
             # empty params
             return self._stack.pop()
 
-        assert start is not None
-        assert end is not None
+        if start is None or end is None:
+            raise self._syntax_error("invalid syntax: empty macro argument", tok)
         if not string.strip():
             return TokenInfo(Token.WS, string, start, end, line)
         return TokenInfo(Token.MACRO_PARAM, string, start, end, line)
@@ -150,6 +155,11 @@ class Tokenizer:
                 else:
                     self._with_macro = False
                     break
+            elif tok.type == Token.ENDMARKER:
+                # nothing left to capture: hand the end of input back to the parser
+                self._stack.append(tok)
+                self._with_macro = False
+                break
             elif tok.type == Token.NEWLINE:
                 if not is_indented:
                     break
@@ -167,6 +177,11 @@ class Tokenizer:
 
             string = textwrap.dedent(string)
         return TokenInfo(Token.MACRO_PARAM, string, start, end, string)
+
+    def _syntax_error(self, message: str, tok: TokenInfo) -> SyntaxError:
+        filename = self._path.replace("\\", "/").rsplit("/", 1)[-1] or "<unknown>"
+        args = (filename, tok.start[0], tok.start[1] + 1, tok.line, tok.end[0], tok.end[1] + 1)
+        return SyntaxError(message, args)
 
     def diagnose(self) -> TokenInfo:
         if not self._tokens:
